@@ -1382,6 +1382,237 @@ static Result run_index(const json &c) {
 }
 
 
+// ------------------------------------------------------------------------------------------------ xml topology
+// A topology description (molecule types x replicas x beads with name/type/mass/q, bonded groups, box) is written as a
+// pure-xml topology by my own writer and read through TopReaderFactory("xml"); the Topology must be the description.
+static std::string xname(int maxlen) {
+  static const std::string a = "ABCDEFGHIJKLMNOPQRSTUVWXYZabcdefghijklmnopqrstuvwxyz0123456789_";
+  std::string n(1, a[size_t(ri(0, 51))]);
+  int L = ri(0, maxlen - 1);
+  for (int i = 0; i < L; ++i) n += a[size_t(ri(0, int(a.size()) - 1))];
+  return n;
+}
+static json gen_xmltop_one() {
+  json t;
+  int nm = rcount(1, 4);
+  json mols = json::array();
+  std::set<std::string> mnames;
+  std::vector<std::string> types;
+  for (int m = 0; m < nm; ++m) {
+    std::string mn;
+    do mn = xname(4);
+    while (mnames.count(mn));
+    mnames.insert(mn);
+    int nb = rcount(1, 7);
+    json beads = json::array();
+    std::set<std::string> bn;
+    for (int b = 0; b < nb; ++b) {
+      std::string name;
+      do name = xname(3);
+      while (bn.count(name));
+      bn.insert(name);
+      std::string type = (!types.empty() && rbool(60)) ? types[size_t(ri(0, int(types.size()) - 1))] : xname(3);
+      types.push_back(type);
+      json bead{{"name", name}, {"type", type}};
+      if (rbool(70)) bead["mass"] = double(ri(1, 400000)) / 1000.0;
+      if (rbool(60)) bead["q"] = double(ri(-3000, 3000)) / 1000.0;
+      beads.push_back(bead);
+    }
+    mols.push_back({{"name", mn}, {"nmols", ri(1, 4)}, {"beads", beads}});
+  }
+  t["mols"] = mols;
+  json bonded = json::array();
+  int ng = rcount(0, 4);
+  for (int g = 0; g < ng; ++g) {
+    int kind = ri(2, 4);  // beads per interaction
+    json tuples = json::array();
+    int nt = rcount(1, 4);
+    for (int k = 0; k < nt; ++k) {
+      const json &m = mols[size_t(ri(0, nm - 1))];
+      int nb = int(m["beads"].size());
+      if (nb < kind) continue;
+      // kind distinct beads of the molecule, any order
+      std::vector<int> idx;
+      while (int(idx.size()) < kind) {
+        int x = ri(0, nb - 1);
+        if (std::find(idx.begin(), idx.end(), x) == idx.end()) idx.push_back(x);
+      }
+      json tu = json::array();
+      for (int x : idx) tu.push_back(m["beads"][size_t(x)]["name"]);
+      tuples.push_back({m["name"], tu});
+    }
+    if (tuples.empty()) continue;
+    bonded.push_back({{"kind", kind}, {"name", xname(5)}, {"tuples", tuples}, {"sep", ri(0, 2)}});
+  }
+  t["bonded"] = bonded;
+  if (rbool(50)) t["box"] = {double(ri(1, 800)) / 16.0, double(ri(1, 800)) / 16.0, double(ri(1, 800)) / 16.0};
+  t["box_first"] = rbool(50);
+  return t;
+}
+static json gen_xmltop() {
+  json c;
+  c["top"] = gen_xmltop_one();
+  if (rbool(30)) c["before"] = gen_xmltop_one();  // the same reader object read this topology first (one reader serves all worker threads)
+  return c;
+}
+static std::string xmltop_text(const json &t) {
+  std::ostringstream o;
+  o.precision(17);
+  o << "<topology>\n";
+  auto box = [&] {
+    if (t.contains("box")) o << "  <box xx=\"" << double(t["box"][0]) << "\" yy=\"" << double(t["box"][1]) << "\" zz=\"" << double(t["box"][2]) << "\"/>\n";
+  };
+  if (t.at("box_first")) box();
+  o << "  <molecules>\n";
+  for (auto &m : t.at("mols")) {
+    o << "    <molecule name=\"" << m["name"].get<std::string>() << "\" nmols=\"" << int(m["nmols"]) << "\" nbeads=\"" << m["beads"].size() << "\">\n";
+    for (auto &b : m["beads"]) {
+      o << "      <bead name=\"" << b["name"].get<std::string>() << "\" type=\"" << b["type"].get<std::string>() << "\"";
+      if (b.contains("mass")) o << " mass=\"" << double(b["mass"]) << "\"";
+      if (b.contains("q")) o << " q=\"" << double(b["q"]) << "\"";
+      o << "/>\n";
+    }
+    o << "    </molecule>\n";
+  }
+  o << "  </molecules>\n";
+  if (!t.at("bonded").empty()) {
+    o << "  <bonded>\n";
+    for (auto &g : t.at("bonded")) {
+      const char *tag = int(g["kind"]) == 2 ? "bond" : int(g["kind"]) == 3 ? "angle" : "dihedral";
+      const char *sep = int(g["sep"]) == 0 ? " " : int(g["sep"]) == 1 ? "\n        " : "\t";
+      o << "    <" << tag << ">\n      <name>" << g["name"].get<std::string>() << "</name>\n      <beads>\n       ";
+      for (auto &tu : g["tuples"]) {
+        for (auto &bn : tu[1]) o << sep << tu[0].get<std::string>() << ":" << bn.get<std::string>();
+        o << "\n       ";
+      }
+      o << "\n      </beads>\n    </" << tag << ">\n";
+    }
+    o << "  </bonded>\n";
+  }
+  if (!t.at("box_first")) box();
+  o << "</topology>\n";
+  return o.str();
+}
+static Result xmltop_body(const json &c) {
+  Result r;
+  plugins();
+  const json &t = c.at("top");
+  const std::string file = scratch() + "/t.xml", file0 = scratch() + "/t0.xml";
+  { std::ofstream f(file); f << xmltop_text(t); }
+  std::unique_ptr<votca::csg::TopologyReader> rd = votca::csg::TopReaderFactory().Create(file);
+  if (!rd) {
+    r.fail("xmltop/no-reader", "no topology reader for .xml");
+    return r;
+  }
+  Topology top_before, top_fresh;
+  Topology *top = &top_fresh;
+  try {
+    if (c.contains("before")) {
+      r.cls("reader-reused");
+      { std::ofstream f(file0); f << xmltop_text(c["before"]); }
+      rd->ReadTopology(file0, top_before);
+    }
+    rd->ReadTopology(file, *top);
+  } catch (const std::exception &ex) {
+    r.fail("xmltop/throws", std::string("reading a valid xml topology threw: ") + ex.what());
+    return r;
+  }
+  // expected beads, molecules, interactions
+  struct EB { std::string name, type; double mass, q; long mol; };
+  std::vector<EB> eb;
+  std::vector<std::pair<std::string, std::vector<long>>> emol;
+  std::map<std::string, std::vector<long>> replicas;  // molecule name -> molecule ids
+  for (auto &m : t.at("mols"))
+    for (int k = 0; k < int(m["nmols"]); ++k) {
+      std::vector<long> ids;
+      for (auto &b : m["beads"]) {
+        ids.push_back(long(eb.size()));
+        eb.push_back({b["name"], b["type"], b.contains("mass") ? double(b["mass"]) : 1.0, b.contains("q") ? double(b["q"]) : 0.0, long(emol.size())});
+      }
+      replicas[m["name"]].push_back(long(emol.size()));
+      emol.emplace_back(m["name"].get<std::string>(), ids);
+    }
+  if (long(top->BeadCount()) != long(eb.size())) {
+    r.fail("xmltop/bead-count", fmt("%zu beads described, %ld read", eb.size(), long(top->BeadCount())));
+    return r;
+  }
+  if (long(top->MoleculeCount()) != long(emol.size())) {
+    r.fail("xmltop/molecule-count", fmt("%zu molecules described, %ld read", emol.size(), long(top->MoleculeCount())));
+    return r;
+  }
+  for (size_t i = 0; i < eb.size(); ++i) {
+    Bead *b = top->getBead(Index(i));
+    if (b->getName() != eb[i].name || b->getType() != eb[i].type)
+      return r.fail("xmltop/bead-name-type", fmt("bead %zu: described %s/%s, read %s/%s", i, eb[i].name.c_str(), eb[i].type.c_str(), b->getName().c_str(), b->getType().c_str())), r;
+    if (b->getMass() != eb[i].mass || b->getQ() != eb[i].q)
+      return r.fail("xmltop/bead-mass-charge", fmt("bead %zu: described mass %.17g q %.17g, read %.17g %.17g", i, eb[i].mass, eb[i].q, b->getMass(), b->getQ())), r;
+    if (long(b->getMoleculeId()) != eb[i].mol)
+      return r.fail("xmltop/bead-molecule", fmt("bead %zu belongs to molecule %ld, read %ld", i, eb[i].mol, long(b->getMoleculeId()))), r;
+  }
+  for (size_t m = 0; m < emol.size(); ++m) {
+    votca::csg::Molecule *mi = top->MoleculeByIndex(Index(m));
+    if (mi->getName() != emol[m].first || long(mi->BeadCount()) != long(emol[m].second.size()))
+      return r.fail("xmltop/molecule", fmt("molecule %zu: described %s with %zu beads, read %s with %ld", m, emol[m].first.c_str(), emol[m].second.size(), mi->getName().c_str(), long(mi->BeadCount()))), r;
+    for (size_t k = 0; k < emol[m].second.size(); ++k)
+      if (long(mi->getBeadId(Index(k))) != emol[m].second[k]) return r.fail("xmltop/molecule-beads", fmt("molecule %zu bead %zu", m, k)), r;
+  }
+  // interactions as a multiset of (group, molecule, bead ids)
+  typedef std::tuple<std::string, long, std::vector<long>> IA;
+  std::multiset<IA> exp_ia, got_ia;
+  std::set<std::pair<long, long>> exp_excl;
+  for (auto &g : t.at("bonded"))
+    for (auto &tu : g["tuples"])
+      for (long mid : replicas[tu[0]]) {
+        std::vector<long> ids;
+        for (auto &bn : tu[1]) {
+          const auto &mb = emol[size_t(mid)].second;
+          for (long id : mb)
+            if (eb[size_t(id)].name == bn.get<std::string>()) ids.push_back(id);
+        }
+        exp_ia.insert(IA(g["name"], mid, ids));
+        for (long a : ids)
+          for (long b2 : ids)
+            if (a < b2) exp_excl.insert({a, b2});
+      }
+  for (auto *ic : top->BondedInteractions()) {
+    std::vector<long> ids;
+    for (Index k = 0; k < ic->BeadCount(); ++k) ids.push_back(long(ic->getBeadId(k)));
+    got_ia.insert(IA(ic->getGroup(), long(ic->getMolecule()), ids));
+  }
+  if (exp_ia != got_ia) {
+    std::string what;
+    for (auto &x : exp_ia)
+      if (!got_ia.count(x)) { what = "missing " + std::get<0>(x) + fmt(" in molecule %ld", std::get<1>(x)); break; }
+    if (what.empty())
+      for (auto &x : got_ia)
+        if (exp_ia.count(x) != got_ia.count(x)) { what = "invented / duplicated " + std::get<0>(x) + fmt(" in molecule %ld", std::get<1>(x)); break; }
+    return r.fail("xmltop/bonded", fmt("%zu interactions described, %zu read: ", exp_ia.size(), got_ia.size()) + what), r;
+  }
+  for (size_t a = 0; a < eb.size(); ++a)
+    for (size_t b2 = a + 1; b2 < eb.size(); ++b2) {
+      bool e = exp_excl.count({long(a), long(b2)}) > 0;
+      bool g1 = top->getExclusions().IsExcluded(top->getBead(Index(a)), top->getBead(Index(b2)));
+      bool g2 = top->getExclusions().IsExcluded(top->getBead(Index(b2)), top->getBead(Index(a)));
+      if (g1 != e || g2 != e) return r.fail("xmltop/exclusions", fmt("beads %zu,%zu: share an interaction %d, excluded %d/%d", a, b2, int(e), int(g1), int(g2))), r;
+    }
+  if (t.contains("box")) {
+    Eigen::Matrix3d B = top->getBox();
+    for (int i = 0; i < 3; ++i)
+      for (int j = 0; j < 3; ++j)
+        if (B(i, j) != (i == j ? double(t["box"][size_t(i)]) : 0.0)) return r.fail("xmltop/box", fmt("box(%d,%d) = %.17g", i, j, B(i, j))), r;
+    r.cls("box");
+  }
+  size_t multi = 0;
+  for (auto &m : t.at("mols"))
+    if (int(m["nmols"]) >= 2) ++multi;
+  if (!exp_ia.empty()) r.cls("bonded");
+  r.nontrivial = t.at("mols").size() >= 2 && multi >= 1 && !exp_ia.empty();
+  return r;
+}
+static Result run_xmltop(const json &c) {
+  return in_child([c] { return xmltop_body(c); }, [](const std::string &, const std::string &) { return std::string("xmltop/crash"); });
+}
+
 // ------------------------------------------------------------------------------------------------ bead counts at the
 // width of the fixed atom-number columns (gro, pdb: five digits wrap at 100000).  The case is compact; beads and
 // coordinates are a pure function of it, expanded into the ordinary trajectory case.
@@ -1447,6 +1678,7 @@ int main(int argc, char **argv) {
   subs.push_back({"imc_matrix", gen_matrix, run_matrix, 2.0, 100, nullptr});
   subs.push_back({"imc_index", gen_index, run_index, 1.0, 100, nullptr});
   subs.push_back({"mismatch", gen_mismatch, run_mismatch, 1.5, 100, nullptr});
+  subs.push_back({"xmltop", gen_xmltop, run_xmltop, 1.5, 100, nullptr});
   for (const char *f : {"dlpc", "dlph", "gro", "pdb", "xyz", "dump"}) {
     std::string fn = f;
     subs.push_back({fn, [fn] { return gen_traj(fn); }, run_traj, 1.0, 100, nullptr});
